@@ -3,6 +3,8 @@
   (`quoRemWithIgnore`, `QuoRem`, `Rem`; model `BPoly.quoRemLoop`, `quoRem`, `rem`) returns a standard
   representation (property C10).
 -/
+import Mathlib.Order.WellFounded
+import Mathlib.Order.WellQuasiOrder
 import Algobra.Proofs.BPolyRefine
 import Algobra.Proofs.Order
 
@@ -323,6 +325,588 @@ theorem quoRemLoop_spec {o : Order} (hadm : Admissible o) {ignore : Option Nat}
         refine ⟨c1, c2, c3, ?_, c5, c6⟩
         rw [← c4, e1, dot_set L qs gs i g _ hi hgi, e2]
         ring
+
+/-! ### supports of products -/
+
+theorem mem_keys_of_coeff_ne_zero {f : BPoly α} {e : Deg} (h : (toMv L f).coeff e ≠ 0) :
+    e ∈ keys f := by
+  induction f with
+  | nil => simp at h
+  | cons x t ih =>
+    rw [toMv_cons, AddMonoidAlgebra.coeff_add, Finsupp.add_apply,
+      AddMonoidAlgebra.coeff_single] at h
+    by_cases hx : x.1 = e
+    · subst hx; simp [keys]
+    · rw [Finsupp.single_eq_of_ne (Ne.symm hx), zero_add] at h
+      exact List.mem_cons_of_mem _ (ih h)
+
+theorem coeff_single_mul_ne_zero {t : Deg} {c : K} {g : BPoly α} {e : Deg}
+    (h : (single t c * toMv L g).coeff e ≠ 0) : ∃ d ∈ keys g, e = t + d := by
+  induction g with
+  | nil => simp at h
+  | cons x g ih =>
+    rw [toMv_cons, mul_add, AddMonoidAlgebra.single_mul_single, AddMonoidAlgebra.coeff_add,
+      Finsupp.add_apply, AddMonoidAlgebra.coeff_single] at h
+    by_cases hx : t + x.1 = e
+    · exact ⟨x.1, by simp [keys], hx.symm⟩
+    · rw [Finsupp.single_eq_of_ne (Ne.symm hx), zero_add] at h
+      obtain ⟨d, hd, rfl⟩ := ih h
+      exact ⟨d, List.mem_cons_of_mem _ hd, rfl⟩
+
+/-- every exponent of a product is the sum of an exponent of each factor -/
+theorem coeff_mul_ne_zero {q g : BPoly α} {e : Deg} (h : (toMv L q * toMv L g).coeff e ≠ 0) :
+    ∃ t ∈ keys q, ∃ d ∈ keys g, e = t + d := by
+  induction q with
+  | nil => simp at h
+  | cons x q ih =>
+    rw [toMv_cons, add_mul, AddMonoidAlgebra.coeff_add, Finsupp.add_apply] at h
+    by_cases h1 : (single x.1 (L.embed x.2) * toMv L g).coeff e = 0
+    · rw [h1, zero_add] at h
+      obtain ⟨t, ht, d, hd, rfl⟩ := ih h
+      exact ⟨t, List.mem_cons_of_mem _ ht, d, hd, rfl⟩
+    · obtain ⟨d, hd, rfl⟩ := coeff_single_mul_ne_zero L h1
+      exact ⟨x.1, by simp [keys], d, hd, rfl⟩
+
+theorem weightedDeg_mono (o : Order) {a b : Deg} (h1 : a.1 ≤ b.1) (h2 : a.2 ≤ b.2) :
+    weightedDeg o a ≤ weightedDeg o b := by
+  unfold weightedDeg
+  split
+  · exact le_refl _
+  · exact Nat.add_le_add (Nat.mul_le_mul_right _ h1) (Nat.mul_le_mul_right _ h2)
+  · exact Nat.add_le_add (Nat.mul_le_mul_right _ h1) (Nat.mul_le_mul_right _ h2)
+
+theorem NoOverflow_mono {o : Order} {a b : Deg} (hb : NoOverflow o b) (h1 : a.1 ≤ b.1)
+    (h2 : a.2 ≤ b.2) : NoOverflow o a :=
+  ⟨lt_of_le_of_lt h1 hb.1, lt_of_le_of_lt h2 hb.2.1,
+    lt_of_le_of_lt (weightedDeg_mono o h1 h2) hb.2.2⟩
+
+/-- the degree invariant bounds every exponent of the product `q * g` -/
+theorem mul_bound {o : Order} (hadm : Admissible o) {q g : BPoly α} {m : Deg}
+    (h : ∀ t ∈ keys q, ShiftNO o g t ∧ o.cmp ((ld o g).1 + t.1, (ld o g).2 + t.2) m ≤ 0) :
+    ∀ e, (toMv L q * toMv L g).coeff e ≠ 0 → NoOverflow o e ∧ o.cmp e m ≤ 0 := by
+  intro e he
+  obtain ⟨t, ht, d, hd, rfl⟩ := coeff_mul_ne_zero L he
+  obtain ⟨hsh, hle⟩ := h t ht
+  have hgne : g ≠ [] := by rintro rfl; cases hd
+  have hgno : ∀ d' ∈ keys g, NoOverflow o d' := fun d' hd' =>
+    NoOverflow_mono (hsh d' hd') (Nat.le_add_right _ _) (Nat.le_add_right _ _)
+  have hldg := ld_mem_keys hadm hgne hgno
+  have e1 : t + d = (d.1 + t.1, d.2 + t.2) := Prod.ext (Nat.add_comm _ _) (Nat.add_comm _ _)
+  rw [e1]
+  refine ⟨hsh d hd, ?_⟩
+  have hc := cmp_add' o d (ld o g) t (hsh d hd) (hsh _ hldg)
+  exact (cmp_isTot o).le_trans (by rw [hc]; exact ld_ge o g d hd) hle
+
+/-! ### the loop from its initial state, `QuoRem`, `Rem` -/
+
+/-- `quoRemLoop` started as in `quoRemWithIgnore` (zero quotients, zero remainder) -/
+theorem quoRemLoop_init_spec {o : Order} (hadm : Admissible o) {ignore : Option Nat}
+    {gs : List (BPoly α)} (hgs : ∀ g ∈ gs, CV L g) {fuel : Nat} {f : BPoly α}
+    {qs : List (BPoly α)} {r : BPoly α} (hf : WF L f) (hno : ∀ d ∈ keys f, NoOverflow o d)
+    (hrun : RunOK F o ignore gs fuel f)
+    (h : quoRemLoop F o ignore gs fuel f (gs.map fun _ => []) [] = some (qs, r)) :
+    (∀ q ∈ qs, WF L q) ∧ WF L r ∧ qs.length = gs.length ∧
+    toMv L f = dot L qs gs + toMv L r ∧
+    (∀ d ∈ keys r, NoOverflow o d ∧ o.cmp d (ld o f) ≤ 0 ∧
+        ∀ j g, gs[j]? = some g → ignore ≠ some j → subDegs d (ld o g) = none) ∧
+    QOK o gs (ld o f) qs := by
+  obtain ⟨c1, c2, c3, c4, c5, c6⟩ := quoRemLoop_spec L hadm hgs (ld o f) fuel f _ [] hf
+    (fun d hd => ⟨hno d hd, ld_ge o f d hd⟩)
+    (fun q hq => by
+      obtain ⟨_, _, rfl⟩ := List.mem_map.1 hq
+      exact WF_nil L)
+    (WF_nil L) (by simp) (QOK_init o gs _) hrun h
+  refine ⟨c1, c2, c3, ?_, ?_, c6⟩
+  · rw [← c4, dot_replicate_nil, toMv_nil]; simp
+  · intro d hd
+    rcases c5 d hd with h1 | h1
+    · cases h1
+    · exact h1
+
+theorem quoRem_zero_divisor (o : Order) (fuel : Nat) (ignore : Option Nat) (f : BPoly α)
+    {gs : List (BPoly α)} (h : [] ∈ gs) : quoRem F o fuel ignore f gs = .error .inputValue := by
+  unfold quoRem
+  rw [if_pos]
+  exact List.any_eq_true.2 ⟨[], h, rfl⟩
+
+theorem quoRem_ok {o : Order} {fuel : Nat} {ignore : Option Nat} {f : BPoly α}
+    {gs : List (BPoly α)} {res : Option (List (BPoly α) × BPoly α)}
+    (h : quoRem F o fuel ignore f gs = .ok res) :
+    (∀ g ∈ gs, g ≠ []) ∧ quoRemLoop F o ignore gs fuel f (gs.map fun _ => []) [] = res := by
+  unfold quoRem at h
+  by_cases ha : gs.any (·.isEmpty) = true
+  · rw [if_pos ha] at h; cases h
+  · rw [if_neg ha] at h
+    refine ⟨?_, by injection h⟩
+    intro g hg h0
+    exact ha (List.any_eq_true.2 ⟨g, hg, by simp [h0]⟩)
+
+/-- the only error of `QuoRem` is InputValue, raised exactly for a zero divisor -/
+theorem quoRem_error {o : Order} {fuel : Nat} {ignore : Option Nat} {f : BPoly α}
+    {gs : List (BPoly α)} {k : Kind} (h : quoRem F o fuel ignore f gs = .error k) :
+    k = .inputValue ∧ [] ∈ gs := by
+  unfold quoRem at h
+  by_cases ha : gs.any (·.isEmpty) = true
+  · rw [if_pos ha] at h
+    obtain ⟨g, hg, hge⟩ := List.any_eq_true.1 ha
+    have : g = [] := List.isEmpty_iff.1 hge
+    subst this
+    exact ⟨by injection h with h; exact h.symm, hg⟩
+  · rw [if_neg ha] at h; cases h
+
+/-- `QuoRem` returns a standard representation -/
+theorem quoRem_spec {o : Order} (hadm : Admissible o) {ignore : Option Nat}
+    {gs : List (BPoly α)} (hgs : ∀ g ∈ gs, CV L g) {fuel : Nat} {f : BPoly α}
+    {qs : List (BPoly α)} {r : BPoly α} (hf : WF L f) (hno : ∀ d ∈ keys f, NoOverflow o d)
+    (hrun : RunOK F o ignore gs fuel f)
+    (h : quoRem F o fuel ignore f gs = .ok (some (qs, r))) :
+    (∀ g ∈ gs, g ≠ []) ∧
+    (∀ q ∈ qs, WF L q) ∧ WF L r ∧ qs.length = gs.length ∧
+    toMv L f = dot L qs gs + toMv L r ∧
+    (∀ d ∈ keys r, NoOverflow o d ∧ o.cmp d (ld o f) ≤ 0 ∧
+        ∀ j g, gs[j]? = some g → ignore ≠ some j → subDegs d (ld o g) = none) ∧
+    (∀ (j : Nat) (q g : BPoly α), qs[j]? = some q → gs[j]? = some g →
+      (∀ t ∈ keys q, o.cmp ((ld o g).1 + t.1, (ld o g).2 + t.2) (ld o f) ≤ 0) ∧
+      (∀ e, (toMv L q * toMv L g).coeff e ≠ 0 → o.cmp e (ld o f) ≤ 0)) := by
+  obtain ⟨hne, hl⟩ := quoRem_ok h
+  obtain ⟨c1, c2, c3, c4, c5, c6⟩ := quoRemLoop_init_spec L hadm hgs hf hno hrun hl
+  refine ⟨hne, c1, c2, c3, c4, c5, ?_⟩
+  intro j q g hq hg
+  exact ⟨fun t ht => (c6 j q g hq hg t ht).2,
+    fun e he => (mul_bound L hadm (c6 j q g hq hg) e he).2⟩
+
+theorem rem_eq (o : Order) (fuel : Nat) (f : BPoly α) (gs : List (BPoly α)) :
+    rem F o fuel f gs = (quoRem F o fuel none f gs).map (·.map Prod.snd) := by
+  unfold rem
+  cases quoRem F o fuel none f gs <;> rfl
+
+theorem rem_ok {o : Order} {fuel : Nat} {f : BPoly α} {gs : List (BPoly α)} {r : BPoly α}
+    (h : rem F o fuel f gs = .ok (some r)) :
+    ∃ qs, quoRem F o fuel none f gs = .ok (some (qs, r)) := by
+  unfold rem at h
+  cases hq : quoRem F o fuel none f gs with
+  | error k => rw [hq] at h; cases h
+  | ok res =>
+    rw [hq] at h
+    cases res with
+    | none => simp at h
+    | some x =>
+      obtain ⟨qs, r0⟩ := x
+      simp only [Option.map_some, Except.ok.injEq, Option.some.injEq] at h
+      subst h
+      exact ⟨qs, rfl⟩
+
+/-! ### a static sufficient condition for `RunOK`: graded orders with positive weights -/
+
+/-- `WDegLex` / `WDegRevLex` with both weights positive (in particular `DegLex`, `DegRevLex`) -/
+def Graded (o : Order) : Prop :=
+  match o.kind with
+  | .lex => False
+  | .wdeglex wx wy => 0 < wx ∧ 0 < wy
+  | .wdegrevlex wx wy => 0 < wx ∧ 0 < wy
+
+instance (o : Order) : Decidable (Graded o) := by
+  unfold Graded; cases o.kind <;> infer_instance
+
+theorem Graded.admissible {o : Order} (h : Graded o) : Admissible o := by
+  unfold Graded at h; unfold Admissible
+  cases hk : o.kind <;> simp_all
+
+theorem Graded.ne_lex {o : Order} (h : Graded o) : o.kind ≠ .lex := by
+  unfold Graded at h
+  intro hk; rw [hk] at h; exact h
+
+theorem weightedDeg_add (o : Order) (a c : Deg) :
+    weightedDeg o (a.1 + c.1, a.2 + c.2) = weightedDeg o a + weightedDeg o c := by
+  unfold weightedDeg
+  split
+  · rfl
+  · exact trueDeg_add _ _ a c
+  · exact trueDeg_add _ _ a c
+
+theorem Graded.le_weightedDeg {o : Order} (h : Graded o) (a : Deg) :
+    a.1 ≤ weightedDeg o a ∧ a.2 ≤ weightedDeg o a := by
+  unfold Graded at h; unfold weightedDeg
+  cases hk : o.kind with
+  | lex => rw [hk] at h; exact h.elim
+  | wdeglex wx wy =>
+    rw [hk] at h
+    simp only [trueDeg]
+    have := Nat.le_mul_of_pos_right a.1 h.1
+    have := Nat.le_mul_of_pos_right a.2 h.2
+    omega
+  | wdegrevlex wx wy =>
+    rw [hk] at h
+    simp only [trueDeg]
+    have := Nat.le_mul_of_pos_right a.1 h.1
+    have := Nat.le_mul_of_pos_right a.2 h.2
+    omega
+
+theorem weightedDeg_le_of_cmp_le {o : Order} (hk : o.kind ≠ .lex) {a b : Deg}
+    (ha : NoOverflow o a) (hb : NoOverflow o b) (h : o.cmp a b ≤ 0) :
+    weightedDeg o a ≤ weightedDeg o b := by
+  by_contra hlt
+  have := cmp_degree_first' o hk a b ha hb (by omega)
+  omega
+
+/-- For the graded orders with positive weights nothing can wrap around as soon as the exponents of
+    the inputs (and their weighted degrees) are machine words: the weighted degree never grows. -/
+theorem RunOK_of_graded {o : Order} (hgr : Graded o) {ignore : Option Nat}
+    {gs : List (BPoly α)} (hgs : ∀ g ∈ gs, ∀ d ∈ keys g, NoOverflow o d) :
+    ∀ (fuel : Nat) (p : BPoly α), (∀ d ∈ keys p, NoOverflow o d) →
+      RunOK F o ignore gs fuel p := by
+  intro fuel
+  induction fuel with
+  | zero => intro p _; trivial
+  | succ fuel ih =>
+    intro p hp
+    rw [RunOK]
+    by_cases hpe : p.isEmpty = true
+    · rw [if_pos hpe]; trivial
+    · rw [if_neg hpe]
+      have hpne : p ≠ [] := fun h0 => hpe (List.isEmpty_iff.2 h0)
+      have hldno : NoOverflow o (ld o p) := hp _ (ld_mem_keys hgr.admissible hpne hp)
+      cases hfd : firstDiv o (ld o p) ignore gs 0 with
+      | none =>
+        simp only
+        exact ih _ (fun d hd => hp d ((mem_keys_erase p _ d).1 hd).1)
+      | some x =>
+        obtain ⟨i, g, dd⟩ := x
+        simp only
+        obtain ⟨-, hgi, -, hsd⟩ := firstDiv_some gs 0 hfd
+        rw [Nat.sub_zero] at hgi
+        have hgno := hgs g (List.mem_of_getElem? hgi)
+        have hdd : ld o p = ld o g + dd := (subDegs_eq_some_iff _ _ _).1 hsd
+        have hdd' : ((ld o g).1 + dd.1, (ld o g).2 + dd.2) = ld o p := by rw [hdd]; rfl
+        have hsh : ShiftNO o g dd := by
+          intro d hd
+          have hgne : g ≠ [] := by rintro rfl; cases hd
+          have hldg := ld_mem_keys hgr.admissible hgne hgno
+          have hw := weightedDeg_le_of_cmp_le hgr.ne_lex (hgno d hd) (hgno _ hldg) (ld_ge o g d hd)
+          have h1 := weightedDeg_add o d dd
+          have h2 := weightedDeg_add o (ld o g) dd
+          rw [hdd'] at h2
+          have h3 := hgr.le_weightedDeg (d.1 + dd.1, d.2 + dd.2)
+          have h4 := hldno.2.2
+          refine ⟨?_, ?_, ?_⟩
+          · have := h3.1; simp only at this; omega
+          · have := h3.2; simp only at this; omega
+          · omega
+        refine ⟨hsh, ih _ ?_⟩
+        intro d hd
+        rcases mem_keys_subShiftScale hsh.shiftOK hd with h1 | ⟨e, he, rfl⟩
+        · exact hp d h1
+        · exact hsh e he
+
+/-! ### termination: some fuel always suffices -/
+
+/-- the strict order on exponent pairs that do not overflow -/
+def DegLT (o : Order) (a b : Deg) : Prop := NoOverflow o a ∧ NoOverflow o b ∧ o.cmp b a = 1
+
+/-- a monomial order refines divisibility -/
+theorem cmp_le_of_le {o : Order} (hadm : Admissible o) {a b : Deg} (hb : NoOverflow o b)
+    (h1 : a.1 ≤ b.1) (h2 : a.2 ≤ b.2) : o.cmp a b ≤ 0 := by
+  have hc : NoOverflow o (b.1 - a.1, b.2 - a.2) :=
+    NoOverflow_mono hb (Nat.sub_le _ _) (Nat.sub_le _ _)
+  have e1 : ((0, 0) : Deg) = ((0, 0) : Deg) := rfl
+  have ea : (((0, 0) : Deg).1 + a.1, ((0, 0) : Deg).2 + a.2) = a :=
+    Prod.ext (Nat.zero_add _) (Nat.zero_add _)
+  have eb : ((b.1 - a.1, b.2 - a.2).1 + a.1, (b.1 - a.1, b.2 - a.2).2 + a.2) = b :=
+    Prod.ext (Nat.sub_add_cancel h1) (Nat.sub_add_cancel h2)
+  have := cmp_add' o (0, 0) (b.1 - a.1, b.2 - a.2) a
+    (by rw [ea]; exact NoOverflow_mono hb h1 h2) (by rw [eb]; exact hb)
+  rw [ea, eb] at this
+  rw [this]
+  exact cmp_zero_le' o hadm _ hc
+
+/-- Dickson's lemma: an admissible order is a well-order on the exponent pairs without overflow -/
+theorem DegLT_wf {o : Order} (hadm : Admissible o) : WellFounded (DegLT o) := by
+  have T := cmp_isTot o
+  rw [wellFounded_iff_isEmpty_descending_chain]
+  refine ⟨fun ⟨f, hf⟩ => ?_⟩
+  have hmono : ∀ i j, i < j → DegLT o (f j) (f i) := by
+    intro i j hij
+    induction j, hij using Nat.le_induction with
+    | base => exact hf i
+    | succ j _ ih => exact ⟨(hf j).1, ih.2.1, T.trans _ _ _ ih.2.2 (hf j).2.2⟩
+  obtain ⟨i, j, hij, hle⟩ := wellQuasiOrdered_le (α := ℕ × ℕ) f
+  have h1 := hmono i j hij
+  have h2 := cmp_le_of_le hadm h1.1 hle.1 hle.2
+  have h3 := h1.2.2
+  omega
+
+theorem cmp_lt_of_le_ne (o : Order) {d b : Deg} (h : o.cmp d b ≤ 0) (hne : d ≠ b) :
+    o.cmp b d = 1 := by
+  have T := cmp_isTot o
+  have h1 := T.range d b
+  have h2 := T.antisymm d b
+  have h3 : o.cmp d b ≠ 0 := fun e => hne ((T.eq_zero d b).1 e)
+  omega
+
+/-- the dividend after one round of the loop -/
+def nextP (F : FOps α) (o : Order) (ignore : Option Nat) (gs : List (BPoly α)) (p : BPoly α) :
+    BPoly α :=
+  match firstDiv o (ld o p) ignore gs 0 with
+  | some (_, g, dd) => subShiftScale F p g dd (lcQuot F o p g)
+  | none => erase p (ld o p)
+
+theorem quoRemLoop_succ (o : Order) (ignore : Option Nat) (gs : List (BPoly α)) (fuel : Nat)
+    {p : BPoly α} (hpe : ¬ p.isEmpty = true) (qs : List (BPoly α)) (r : BPoly α) :
+    ∃ qs2 r2, quoRemLoop F o ignore gs (fuel + 1) p qs r
+      = quoRemLoop F o ignore gs fuel (nextP F o ignore gs p) qs2 r2 := by
+  rw [quoRemLoop, if_neg hpe]
+  unfold nextP
+  simp only
+  cases firstDiv o (ld o p) ignore gs 0 with
+  | none => exact ⟨_, _, rfl⟩
+  | some x => exact ⟨_, _, rfl⟩
+
+theorem RunOK_succ {o : Order} {ignore : Option Nat} {gs : List (BPoly α)} {fuel : Nat}
+    {p : BPoly α} (hpe : ¬ p.isEmpty = true) (h : RunOK F o ignore gs (fuel + 1) p) :
+    RunOK F o ignore gs fuel (nextP F o ignore gs p) := by
+  rw [RunOK, if_neg hpe] at h
+  unfold nextP
+  cases hfd : firstDiv o (ld o p) ignore gs 0 with
+  | none => rw [hfd] at h; exact h
+  | some x => rw [hfd] at h; exact h.2
+
+/-- the leading term is cancelled by a division step -/
+theorem ld_not_mem_div_step {o : Order} (hadm : Admissible o) {p g : BPoly α} {dd : Deg}
+    (hp : WF L p) (hg : WF L g) (hgne : g ≠ []) (hgno : ∀ d ∈ keys g, NoOverflow o d)
+    (hsh : ShiftOK g dd) (hdd : ld o p = ld o g + dd) :
+    ld o p ∉ keys (subShiftScale F p g dd (lcQuot F o p g)) := by
+  have htv := lcQuot_valid L hp.cv hg.cv o
+  obtain ⟨w1, e1⟩ := subShiftScale_spec L dd hp hg.cv htv hsh
+  have hldg := ld_mem_keys hadm hgne hgno
+  have h0 : L.embed (lc F o g) ≠ 0 := coef_ne_zero L hg hldg
+  rw [show keys (subShiftScale F p g dd (lcQuot F o p g))
+      = (subShiftScale F p g dd (lcQuot F o p g)).map (·.1) from rfl, mem_keys_iff L w1, not_not, e1,
+    AddMonoidAlgebra.coeff_sub, Finsupp.sub_apply, toMv_apply L hp]
+  have hdd2 : ld o p = dd + ld o g := by rw [hdd, add_comm]
+  conv_lhs => rw [hdd2]
+  rw [AddMonoidAlgebra.coeff_single_mul_add, toMv_apply L hg, lcQuot_embed L hp.cv hg.cv o h0,
+    ← hdd2]
+  show L.embed (lc F o p) - L.embed (lc F o p) / L.embed (lc F o g) * L.embed (lc F o g) = 0
+  rw [div_mul_cancel₀ _ h0, sub_self]
+
+/-- one round of the loop: the new dividend is canonical, has no overflow, and all of its exponents
+    are strictly below the old leading exponent -/
+theorem nextP_spec {o : Order} (hadm : Admissible o) {ignore : Option Nat} {gs : List (BPoly α)}
+    (hgs : ∀ g ∈ gs, WF L g ∧ g ≠ [] ∧ ∀ d ∈ keys g, NoOverflow o d)
+    {p : BPoly α} (hp : WF L p) (hno : ∀ d ∈ keys p, NoOverflow o d) (hpe : ¬ p.isEmpty = true)
+    (hrun : RunOK F o ignore gs 1 p) :
+    WF L (nextP F o ignore gs p) ∧ ∀ d ∈ keys (nextP F o ignore gs p), DegLT o d (ld o p) := by
+  have T := cmp_isTot o
+  have hpne : p ≠ [] := fun h0 => hpe (List.isEmpty_iff.2 h0)
+  have hldm : ld o p ∈ keys p := ld_mem_keys hadm hpne hno
+  have hldno := hno _ hldm
+  rw [RunOK, if_neg hpe] at hrun
+  unfold nextP
+  cases hfd : firstDiv o (ld o p) ignore gs 0 with
+  | none =>
+    simp only
+    refine ⟨WF_erase L hp _, fun d hd => ?_⟩
+    obtain ⟨h1, h2⟩ := (mem_keys_erase p _ d).1 hd
+    exact ⟨hno d h1, hldno, cmp_lt_of_le_ne o (ld_ge o p d h1) h2⟩
+  | some x =>
+    obtain ⟨i, g, dd⟩ := x
+    rw [hfd] at hrun
+    simp only at hrun ⊢
+    obtain ⟨hsh, -⟩ := hrun
+    obtain ⟨-, hgi, -, hsd⟩ := firstDiv_some gs 0 hfd
+    rw [Nat.sub_zero] at hgi
+    obtain ⟨hgw, hgne, hgno⟩ := hgs g (List.mem_of_getElem? hgi)
+    have hdd : ld o p = ld o g + dd := (subDegs_eq_some_iff _ _ _).1 hsd
+    have hdd' : ((ld o g).1 + dd.1, (ld o g).2 + dd.2) = ld o p := by rw [hdd]; rfl
+    have htv := lcQuot_valid L hp.cv hgw.cv o
+    have hnm := ld_not_mem_div_step L hadm hp hgw hgne hgno hsh.shiftOK hdd
+    refine ⟨WF_subShiftScale L dd hp hgw.cv htv hsh.shiftOK, fun d hd => ?_⟩
+    have hne : d ≠ ld o p := by rintro rfl; exact hnm hd
+    rcases mem_keys_subShiftScale hsh.shiftOK hd with h1 | ⟨e, he, rfl⟩
+    · exact ⟨hno d h1, hldno, cmp_lt_of_le_ne o (ld_ge o p d h1) hne⟩
+    · refine ⟨hsh e he, hldno, cmp_lt_of_le_ne o ?_ hne⟩
+      have hcmp := cmp_add' o e (ld o g) dd (hsh e he) (by rw [hdd']; exact hldno)
+      rw [hdd'] at hcmp
+      rw [hcmp]; exact ld_ge o g e he
+
+/-- **Termination** of the division loop: for an admissible order and a run without wrap-around,
+    some amount of fuel suffices (for all accumulator values). -/
+theorem quoRemLoop_terminates {o : Order} (hadm : Admissible o) {ignore : Option Nat}
+    {gs : List (BPoly α)} (hgs : ∀ g ∈ gs, WF L g ∧ g ≠ [] ∧ ∀ d ∈ keys g, NoOverflow o d)
+    {p : BPoly α} (hp : WF L p) (hno : ∀ d ∈ keys p, NoOverflow o d)
+    (hrun : ∀ fuel, RunOK F o ignore gs fuel p) :
+    ∃ fuel, ∀ qs r, quoRemLoop F o ignore gs fuel p qs r ≠ none := by
+  have aux : ∀ b : Deg, ∀ p : BPoly α, WF L p → (∀ d ∈ keys p, NoOverflow o d) →
+      (∀ fuel, RunOK F o ignore gs fuel p) → ¬ p.isEmpty = true → ld o p = b →
+      ∃ fuel, ∀ qs r, quoRemLoop F o ignore gs fuel p qs r ≠ none := by
+    intro b
+    induction b using (DegLT_wf hadm).induction with
+    | _ b ih =>
+      intro p hp hno hrun hpe hb
+      obtain ⟨w, hk⟩ := nextP_spec L hadm hgs hp hno hpe (hrun 1)
+      have hno' : ∀ d ∈ keys (nextP F o ignore gs p), NoOverflow o d := fun d hd => (hk d hd).1
+      have hrun' : ∀ fuel, RunOK F o ignore gs fuel (nextP F o ignore gs p) :=
+        fun fuel => RunOK_succ hpe (hrun (fuel + 1))
+      by_cases hpe' : (nextP F o ignore gs p).isEmpty = true
+      · refine ⟨2, fun qs r => ?_⟩
+        obtain ⟨qs2, r2, e⟩ := quoRemLoop_succ (F := F) o ignore gs 1 hpe qs r
+        rw [e, quoRemLoop, if_pos hpe']
+        exact Option.some_ne_none _
+      · have hpne' : nextP F o ignore gs p ≠ [] := fun h0 => hpe' (List.isEmpty_iff.2 h0)
+        have hlt := hk _ (ld_mem_keys hadm hpne' hno')
+        rw [hb] at hlt
+        obtain ⟨fuel, hf⟩ := ih _ hlt _ w hno' hrun' hpe' rfl
+        refine ⟨fuel + 1, fun qs r => ?_⟩
+        obtain ⟨qs2, r2, e⟩ := quoRemLoop_succ (F := F) o ignore gs fuel hpe qs r
+        rw [e]; exact hf qs2 r2
+  by_cases hpe : p.isEmpty = true
+  · refine ⟨1, fun qs r => ?_⟩
+    rw [quoRemLoop, if_pos hpe]
+    exact Option.some_ne_none _
+  · exact aux _ p hp hno hrun hpe rfl
+
+/-- more fuel does not change a completed run -/
+theorem quoRemLoop_fuel_mono (o : Order) (ignore : Option Nat) (gs : List (BPoly α)) (k : Nat) :
+    ∀ (fuel : Nat) (p : BPoly α) (qs : List (BPoly α)) (r : BPoly α)
+      {x : List (BPoly α) × BPoly α},
+      quoRemLoop F o ignore gs fuel p qs r = some x →
+      quoRemLoop F o ignore gs (fuel + k) p qs r = some x := by
+  intro fuel
+  induction fuel with
+  | zero => intro p qs r x h; simp [quoRemLoop] at h
+  | succ fuel ih =>
+    intro p qs r x h
+    rw [show fuel + 1 + k = (fuel + k) + 1 by omega, quoRemLoop]
+    rw [quoRemLoop] at h
+    by_cases hpe : p.isEmpty = true
+    · rw [if_pos hpe] at h ⊢; exact h
+    · rw [if_neg hpe] at h ⊢
+      simp only at h ⊢
+      cases hfd : firstDiv o (ld o p) ignore gs 0 with
+      | none => rw [hfd] at h; simp only at h ⊢; exact ih _ _ _ h
+      | some y => rw [hfd] at h; simp only at h ⊢; exact ih _ _ _ h
+
+/-- `QuoRem` terminates with a value (for enough fuel) -/
+theorem quoRem_terminates {o : Order} (hadm : Admissible o) {ignore : Option Nat}
+    {gs : List (BPoly α)} (hgs : ∀ g ∈ gs, WF L g ∧ g ≠ [] ∧ ∀ d ∈ keys g, NoOverflow o d)
+    {f : BPoly α} (hf : WF L f) (hno : ∀ d ∈ keys f, NoOverflow o d)
+    (hrun : ∀ fuel, RunOK F o ignore gs fuel f) :
+    ∃ fuel qs r, quoRem F o fuel ignore f gs = .ok (some (qs, r)) := by
+  obtain ⟨fuel, h⟩ := quoRemLoop_terminates L hadm hgs hf hno hrun
+  refine ⟨fuel, ?_⟩
+  unfold quoRem
+  have ha : ¬ gs.any (·.isEmpty) = true := by
+    intro ha
+    obtain ⟨g, hg, hge⟩ := List.any_eq_true.1 ha
+    exact (hgs g hg).2.1 (List.isEmpty_iff.1 hge)
+  rw [if_neg ha]
+  cases hq : quoRemLoop F o ignore gs fuel f (gs.map fun _ => []) [] with
+  | none => exact absurd hq (h _ _)
+  | some x => exact ⟨x.1, x.2, rfl⟩
+
+/-! ### the products `qᵢ gᵢ` as computed by the library (`multNoReduce`) -/
+
+theorem NoOverflow_zero (o : Order) : NoOverflow o (0, 0) := by
+  refine ⟨by norm_num, by norm_num, ?_⟩
+  unfold weightedDeg
+  split
+  · norm_num
+  · rw [trueDeg_zero]; norm_num
+  · rw [trueDeg_zero]; norm_num
+
+theorem NoOverflow_ld {o : Order} (hadm : Admissible o) {f : BPoly α}
+    (hno : ∀ d ∈ keys f, NoOverflow o d) : NoOverflow o (ld o f) := by
+  by_cases hf : f = []
+  · subst hf; exact NoOverflow_zero o
+  · exact hno _ (ld_mem_keys hadm hf hno)
+
+/-- under the degree invariant the product `q * g` is computed without overflow, exactly, and its
+    leading exponent is at most `m` -/
+theorem mulNoReduce_bound {o : Order} (hadm : Admissible o) {q g : BPoly α} {m : Deg}
+    (hm0 : NoOverflow o m) (hq : CV L q) (hg : CV L g)
+    (hQ : ∀ t ∈ keys q, ShiftNO o g t ∧ o.cmp ((ld o g).1 + t.1, (ld o g).2 + t.2) m ≤ 0) :
+    ∃ h, mulNoReduce F q g = some h ∧ WF L h ∧ toMv L h = toMv L q * toMv L g ∧
+      o.cmp (ld o h) m ≤ 0 := by
+  have hno : ¬ Ovf q g := by
+    rintro ⟨x, hx, y, hy, hn⟩
+    have := (hQ x.1 (List.mem_map_of_mem hx)).1 y.1 (List.mem_map_of_mem hy)
+    exact hn ⟨by have := this.1; simp only at this; omega,
+      by have := this.2.1; simp only at this; omega⟩
+  obtain ⟨h, e, w, t⟩ := mulNoReduce_some L hq hg hno
+  refine ⟨h, e, w, t, ?_⟩
+  by_cases hh : h = []
+  · subst hh; exact cmp_zero_le' o hadm m hm0
+  · have hb : ∀ d ∈ keys h, NoOverflow o d ∧ o.cmp d m ≤ 0 := by
+      intro d hd
+      have := (mem_keys_iff L w d).1 hd
+      rw [t] at this
+      exact mul_bound L hadm hQ d this
+    exact (hb _ (ld_mem_keys hadm hh (fun d hd => (hb d hd).1))).2
+
+/-! ### `RunOK` is decidable (used by the sanity evaluations) -/
+
+instance (o : Order) (g : BPoly α) (dd : Deg) : Decidable (ShiftNO o g dd) := by
+  unfold ShiftNO; infer_instance
+
+/-- Boolean version of `RunOK` -/
+def runOKb (F : FOps α) (o : Order) (ignore : Option Nat) (gs : List (BPoly α)) :
+    Nat → BPoly α → Bool
+  | 0, _ => true
+  | fuel + 1, p =>
+    if p.isEmpty then true
+    else match firstDiv o (ld o p) ignore gs 0 with
+      | some (_, g, dd) =>
+        decide (ShiftNO o g dd) && runOKb F o ignore gs fuel (subShiftScale F p g dd (lcQuot F o p g))
+      | none => runOKb F o ignore gs fuel (erase p (ld o p))
+
+theorem runOKb_iff (o : Order) (ignore : Option Nat) (gs : List (BPoly α)) :
+    ∀ (fuel : Nat) (p : BPoly α), runOKb F o ignore gs fuel p = true ↔ RunOK F o ignore gs fuel p := by
+  intro fuel
+  induction fuel with
+  | zero => intro p; simp [runOKb, RunOK]
+  | succ fuel ih =>
+    intro p
+    rw [runOKb, RunOK]
+    by_cases hpe : p.isEmpty = true
+    · simp [hpe]
+    · rw [if_neg hpe, if_neg hpe]
+      cases firstDiv o (ld o p) ignore gs 0 with
+      | none => exact ih _
+      | some x => simp only [Bool.and_eq_true, decide_eq_true_eq, ih]
+
+instance (o : Order) (ignore : Option Nat) (gs : List (BPoly α)) (fuel : Nat) (p : BPoly α) :
+    Decidable (RunOK F o ignore gs fuel p) :=
+  decidable_of_iff _ (runOKb_iff o ignore gs fuel p)
+
+/-- a completed run that did not wrap around is `RunOK` for every amount of fuel -/
+theorem RunOK_of_complete (o : Order) (ignore : Option Nat) (gs : List (BPoly α)) :
+    ∀ (fuel : Nat) (p : BPoly α) (qs : List (BPoly α)) (r : BPoly α)
+      {x : List (BPoly α) × BPoly α},
+      quoRemLoop F o ignore gs fuel p qs r = some x → RunOK F o ignore gs fuel p →
+      ∀ fuel', RunOK F o ignore gs fuel' p := by
+  intro fuel
+  induction fuel with
+  | zero => intro p qs r x h; simp [quoRemLoop] at h
+  | succ fuel ih =>
+    intro p qs r x h hrun fuel'
+    cases fuel' with
+    | zero => trivial
+    | succ fuel' =>
+      rw [RunOK] at hrun ⊢
+      rw [quoRemLoop] at h
+      by_cases hpe : p.isEmpty = true
+      · rw [if_pos hpe]; trivial
+      · rw [if_neg hpe] at h hrun ⊢
+        simp only at h
+        cases hfd : firstDiv o (ld o p) ignore gs 0 with
+        | none =>
+          rw [hfd] at h hrun
+          simp only at h hrun ⊢
+          exact ih _ _ _ h hrun fuel'
+        | some y =>
+          rw [hfd] at h hrun
+          simp only at h hrun ⊢
+          exact ⟨hrun.1, ih _ _ _ h hrun.2 fuel'⟩
 
 end BPoly
 end Algobra
